@@ -243,3 +243,41 @@ func ZZMessageTwo() {
 	vrt.Assert(!other.Closed, "a peer's messages dropped another peer")
 	vrt.Assert(t.status() == Downloading, "a peer's messages changed the torrent's state")
 }
+
+// ZZMetadataSizeCap: a magnet torrent (metadata unknown) receives an extension
+// handshake announcing an arbitrary 64-bit metadata size: a metadata fetch is
+// started from that peer only if the size is positive, within the configured
+// maximum (set to 3 blocks here), and ut_metadata is offered; the buffer
+// allocated is exactly the announced size.
+//
+//vrt:cover ZZMetadataSizeCap fetch started
+//vrt:cover ZZMetadataSizeCap oversized refused
+func ZZMetadataSizeCap() {
+	sto := &zzStorage{}
+	t := zzNewTorrent(nil, nil, sto)
+	t.session.config.MaxMetadataSize = 3 * 16384
+	t.start()
+	vrt.Assert(t.status() == DownloadingMetadata, "fixture is not downloading metadata")
+	pe := zzAddPeer(t, 1, false, zzFastExt)
+	if pe == nil {
+		return
+	}
+	size := vrt.Int("announced_metadata_size")
+	vrt.Assume(size >= 0) // the decoder clamps negatives to zero
+	m := map[string]uint8{}
+	offers := vrt.Bool("offers_metadata")
+	if offers {
+		m["ut_metadata"] = 3
+	}
+	hs := peerprotocol.ExtensionHandshakeMessage{M: m, V: "x", MetadataSize: size}
+	t.handlePeerMessage(peer.Message{Peer: pe, Message: hs})
+	id, started := t.infoDownloaders[pe]
+	if started {
+		vrt.Cover(true, "fetch started")
+		vrt.Assert(offers && size > 0 && size <= 3*16384, "metadata fetch started for an absent, empty or oversized metadata announcement")
+		vrt.Assert(len(id.Bytes) == size, "metadata buffer differs from the announced size")
+	} else {
+		vrt.Cover(size > 3*16384, "oversized refused")
+		vrt.Assert(!(offers && size > 0 && size <= 3*16384), "eligible peer not used for the metadata fetch")
+	}
+}
